@@ -46,7 +46,7 @@ def run(tier, seed, t0, only=None):
     gs = groups(tier)
     if only:
         gs = [g for g in gs if any(g['id'].startswith(o) for o in only)]
-    obs = attrrun.run(gs, ('C14',))
+    obs = attrrun.run(gs, ('C14', 'C13.panic'))          # a panic while writing or reading back is a failed round trip too
     obs.append(attrrun.twin())
     # Z3: type id table of the code = Type ID headings of the document (both directions), decided on the real MIR of
     # type_id::{to,from}_variant_type for all 256 ids
@@ -55,6 +55,7 @@ def run(tier, seed, t0, only=None):
         H = K.Harness
         obs += K.run_harnesses([
             H('rbx_types', 'k4_rotation_id_roundtrip', 'K4.ids', 'CFrame rotation ids: from_basic_rotation_id(id)=Ok(m) => to_basic_rotation_id(m)=Some(id)', 'all 256 ids'),
+            H('rbx_types', 'k4_rotation_table_proper', 'K4.proper', 'every basic rotation id maps to a proper rotation of the cube: entries in {-1,0,1}, orthonormal rows, determinant +1 (oracle independent of the table)', 'all 256 ids', timeout=900, functions=['Matrix3::from_basic_rotation_id']),
             H('rbx_types', 'k4_rotation_snap_within_epsilon', 'K4.snap', 'a matrix is written as a rotation id only if every entry is within f32::EPSILON of that rotation', '9 symbolic f32', timeout=1500,
               finding_key='rotation_snap_beyond_epsilon'),
         ], tier)
